@@ -152,6 +152,69 @@ def step' : Step DSt := fun d fs impl =>
     apply d (some .finish)
       (fun o => match o with | .orphaned ids => "orph=" ++ showIds ids | .none => "orph=-" | _ => "?") implOut false
   | ["done"] => apply d (some .closeDone) (fun _ => "-") (some .none) false
+  | "finishrace" :: its =>
+    /- finish() held inside its orphan sweep while the items run. In the model finish is atomic (it is
+       one critical section in the code), so the items linearize after it. For the monitor the
+       implementation's answers decide the linearization: an item the implementation ACCEPTED / served
+       happened before the close (so it must then be orphaned / accounted for by this very finish), a
+       rejected one after it. -/
+    let parseIt (s : String) : Option (Op × Option Item) :=
+      if s = "g" then some (.get false, none) else
+      match s.toList with
+      | 'p' :: k :: r => (String.ofList r).toNat?.map fun id =>
+          let it : Item := ⟨id, k = 't', k = 'h'⟩
+          (.put it, some it)
+      | _ => none
+    match its.mapM parseIt with
+    | none => (d, "bad-op", "-")
+    | some ops =>
+      let d := { d with items := (ops.filterMap fun p => p.2.map fun it => (it.id, it)) ++ d.items }
+      let resOfOut : Out → String := fun o => match o with
+        | .putOk => "ok" | .putErr => "err" | .got it => s!"got_{it.id}" | .getNone => "none" | .getErr => "err"
+        | .busy => "busy" | _ => "?"
+      -- model: finish, then the items
+      let r0 := step d.s .finish
+      let orphM := match r0.2 with | .orphaned ids => showIds ids | _ => "-"
+      let (sM, outsM) := ops.foldl (fun (acc : St × List String) p =>
+          let r := step acc.1 p.1
+          (r.1, acc.2 ++ [resOfOut r.2])) (r0.1, [])
+      let s1 := settleReaders sM
+      let (s2, c2) := settleConsumer 8 s1
+      let s3 := settleReaders s2
+      let consOut' := d.consOut && c2.isNone
+      let blockedM := (dedup ((s3.readers.filter fun p => readerBlocked s3 p.1).map (·.1))).foldl (fun acc x => insertNat x acc) []
+      let resM := if outsM.isEmpty then "-" else ",".intercalate outsM
+      let mo := s!"orph={orphM}/{resM} blocked={showIds blockedM} cons={showCons c2 d.consOut}"
+      -- monitor on the implementation's observations
+      let (orphI, resI) : Option (List Nat) × List String :=
+        match io.res.splitOn "/" with
+        | [a, b] => (if a.startsWith "orph=" then parseIds (a.drop 5).toString else none, if b = "-" then [] else b.splitOn ",")
+        | _ => (none, [])
+      let implOuts : List (Op × Option Out) := (ops.zip resI).map fun (p, r) =>
+        (p.1, match p.1 with
+          | .put _ => if r = "ok" then some Out.putOk else if r = "err" then some Out.putErr else none
+          | _ => parseGot d r)
+      let served (o : Option Out) : Bool := match o with
+        | some .putOk => true | some (.got _) => true | some .getNone => true | _ => false
+      let before := implOuts.filter fun p => served p.2
+      let after := implOuts.filter fun p => !served p.2
+      let feed (acc : Mon × List Verdict) (p : Op × Option Out) : Mon × List Verdict :=
+        match p.2 with
+        | some out => let r := acc.1.step p.1 out; (r.1, acc.2 ++ [r.2])
+        | none => (acc.1, acc.2 ++ [Verdict.viol 12])
+      let (m0, vs0) := before.foldl feed (d.m, [])
+      let (m1, vs1) := match orphI with
+        | some ids => let r := m0.step .finish (.orphaned ids); (r.1, [r.2])
+        | none => (m0, [Verdict.viol 12])
+      let (m2, vs2) := after.foldl feed (m1, [])
+      let (m3, v3) := match parseGot d io.cons with
+        | some out => if io.cons = "parked" || io.cons = "-" then (m2, Verdict.na) else m2.step (.get true) out
+        | none => (m2, Verdict.na)
+      let v4 := m3.readers (!io.blocked.isEmpty)
+      let v := if impl.startsWith "PANIC" || impl.startsWith "CRASH" then "VIOL " ++ violText 9
+        else if io?.isNone || resI.length ≠ ops.length then "VIOL unparsable implementation output"
+        else verdictStr (vs0 ++ vs1 ++ vs2 ++ [v3, v4])
+      ({ d with s := s3, m := m3, consOut := consOut' }, mo, v)
   | _ => (d, "bad-op", "-")
 
 def run : IO Unit := Driver.run dinit step'
